@@ -190,7 +190,7 @@ func c35(r *core.Report, p *core.Prog, thorough bool) {
 		for i := range ws {
 			wr, held := li.AtInstr[ws[i].Instr]["r.mutex"]
 			r.Check(held && wr, "C35.one-per-rank", fmt.Sprintf("AddNotarizedBlock:store-under-lock:%d", i), posOf(p, ws[i].Instr), "list changed under the write lock")
-			if HasCmp(ws[i].Instr.Block(), "", token.GTR, "-1") || strings.Contains(factsText(ws[i].Instr.Block()), "> -1") {
+			if HasCmp(ws[i].Instr.Block(), "", token.GTR, "-1") || strings.Contains(factsText(ws[i].Instr.Block()), "> -1") || strings.Contains(factsText(ws[i].Instr.Block()), ">= 0") {
 				removal = &ws[i]
 			} else {
 				final = &ws[i]
@@ -200,7 +200,17 @@ func c35(r *core.Report, p *core.Prog, thorough bool) {
 			r.Check(core.Reaches(removal.Instr, final.Instr) && !core.Reaches(final.Instr, removal.Instr), "C35.one-per-rank", "AddNotarizedBlock:remove-before-append", posOf(p, removal.Instr), "the same-rank block is removed before the new one is appended")
 			// found is set where RoundRank matches
 			rankCmp := false
-			for _, b := range anb.Blocks {
+			rankFns := []*ssa.Function{anb}
+			for _, cs := range core.CallsIn(anb, false, nil) {
+				if h := core.StaticCallee(cs.Common()); h != nil && h.Blocks != nil && h.Pkg == anb.Pkg && h != anb {
+					rankFns = append(rankFns, h) // the scan for the same-rank block may sit in a helper
+				}
+			}
+			var rankBlocks []*ssa.BasicBlock
+			for _, rf := range rankFns {
+				rankBlocks = append(rankBlocks, rf.Blocks...)
+			}
+			for _, b := range rankBlocks {
 				for _, in := range b.Instrs {
 					if bo, ok := in.(*ssa.BinOp); ok && bo.Op == token.EQL && strings.HasSuffix(describe(bo.X), ".RoundRank") && strings.HasSuffix(describe(bo.Y), ".RoundRank") {
 						// rank equality alone selects the block to replace: the true edge
@@ -233,11 +243,9 @@ func c35(r *core.Report, p *core.Prog, thorough bool) {
 					}
 					// the index is the loop index stored where the ranks matched (phi of -1 and the range index)
 					idxOK := false
-					if ph, ok := lo.High.(*ssa.Phi); ok {
-						for _, e := range ph.Edges {
-							if k, isK := core.ConstInt(e); isK && k == -1 {
-								idxOK = true
-							}
+					for _, lv := range ValueLeaves(lo.High, 1) { // phi edges, or the results of the scan helper
+						if k, isK := core.ConstInt(lv); isK && k == -1 {
+							idxOK = true
 						}
 					}
 					delOK = sameList && plus1 && idxOK
@@ -336,6 +344,43 @@ func c35(r *core.Report, p *core.Prog, thorough bool) {
 					prm := core.ParamOf(st.Val)
 					r.Check(prm != nil && prm.Name() == "b", "C35.update", "UpdateNotarizedBlock:"+fld+":stores-argument", posOf(p, st), "the slot must receive the given block, stores "+describe(st.Val))
 					r.Check(HasCmp(b, ".Hash", token.EQL, ".Hash"), "C35.update", "UpdateNotarizedBlock:"+fld+":matched-by-hash", posOf(p, st), "slot selected by hash equality")
+				}
+			}
+			if n == 0 {
+				// the replacement as a helper of the package: h(list, b) stores b into list[i] where the hashes match
+				for _, cs := range core.CallsIn(unb, false, nil) {
+					hc, ok := cs.Instr.(*ssa.Call)
+					h := core.StaticCallee(cs.Common())
+					if !ok || h == nil || h.Blocks == nil || h.Pkg != unb.Pkg || len(h.Params) != len(hc.Call.Args) {
+						continue
+					}
+					var listPrm, blkPrm *ssa.Parameter
+					for i, a := range hc.Call.Args {
+						if fieldOfLoad(a) == f {
+							listPrm = h.Params[i]
+						}
+						if prm := core.ParamOf(a); prm != nil && prm.Name() == "b" {
+							blkPrm = h.Params[i]
+						}
+					}
+					if listPrm == nil || blkPrm == nil {
+						continue
+					}
+					for _, hb := range h.Blocks {
+						for _, in := range hb.Instrs {
+							st, ok := in.(*ssa.Store)
+							if !ok {
+								continue
+							}
+							ia, ok := st.Addr.(*ssa.IndexAddr)
+							if !ok || core.ParamOf(ia.X) != listPrm {
+								continue
+							}
+							n++
+							r.Check(core.ParamOf(st.Val) == blkPrm, "C35.update", "UpdateNotarizedBlock:"+fld+":stores-argument", posOf(p, st), "the slot must receive the given block, stores "+describe(st.Val))
+							r.Check(HasCmp(hb, ".Hash", token.EQL, ".Hash"), "C35.update", "UpdateNotarizedBlock:"+fld+":matched-by-hash", posOf(p, st), "slot selected by hash equality")
+						}
+					}
 				}
 			}
 			r.Check(n == 1, "C35.update", "UpdateNotarizedBlock:"+fld+":one-store", p.Pos(unb.Pos()), fmt.Sprintf("%d stores", n))
